@@ -44,7 +44,7 @@ ASSUMPTIONS = [
     "run_ode/j_from_ode are trusted here (decided by C10)",
     "numba, numpy, scipy are trusted",
 ]
-FAULT_KINDS = ["cancel_in_model_phase", "model:raises", "x:nan_or_inf", "x:destabilising", "model:diverging",
+FAULT_KINDS = ["same_name_other_system", "cancel_in_model_phase", "model:raises", "x:nan_or_inf", "x:destabilising", "model:diverging",
                "model:nan_after", "illegal:set_model_unsupported",
                "illegal:get_differentials_unsupported", "short_circuit_1e200"]
 PROBES = ["short_circuit_after_recorded_case", "model_eval_between_raw_evals",
@@ -157,7 +157,17 @@ def gen_x(rng: random.Random, dim: int) -> tuple[list, str]:
     return [_rf(rng, -32.0, 32.0) for _ in range(dim)], "box"
 
 
-def generate(rng: random.Random, batch: dict) -> dict:
+def generate(rng: random.Random, batch: dict, depth: int = 0) -> dict:
+    doc = _generate(rng, batch)
+    if depth == 0 and "bundled" not in doc["system"] \
+            and not batch.get("surrogate") and rng.random() < 0.1:
+        twin = _generate(rng, {**batch, "max_ops": 8})
+        if "bundled" not in twin["system"]:
+            doc["twin"] = twin
+    return doc
+
+
+def _generate(rng: random.Random, batch: dict) -> dict:
     if batch.get("bundled"):
         sysname = rng.choice(["stuart_landau", "lorenz"])
         fam = rng.choice(BUNDLED_FAMILIES)
@@ -348,7 +358,7 @@ def _make_model(mid: str, sd: int, cd: int, real_eq):
     return lin
 
 
-def _build(sysdoc: dict):
+def _build(sysdoc: dict, name: str | None = None):
     """A freshly built Instance (new arrays, new closures) for the scenario."""
     import numpy as np
     from moptipyapps.dynamic_control.controller import Controller
@@ -392,7 +402,7 @@ def _build(sysdoc: dict):
                 acc += float(params[k * sd + j]) * float(state[j])
             out[k] = acc if abs(acc) <= blow else math.nan
     train = np.array(sysdoc["train"], dtype=float)
-    system = System("sys" + core.digest(sysdoc)[:10], sd, cd, 0,
+    system = System(name or ("sys" + core.digest(sysdoc)[:10]), sd, cd, 0,
                     int(sysdoc["in_j"]),
                     float(sysdoc["gamma"]), train.copy(), train.copy(),
                     10, 1.0, int(sysdoc["steps"]), float(sysdoc["time"]), (0,))
@@ -435,6 +445,30 @@ def execute(doc: dict) -> dict:
 
 
 def _execute(doc: dict) -> dict:
+    """Optionally followed by a twin: a different system that carries the SAME
+    name (and hence the same instance name) with its own objective object."""
+    name = "sys" + core.digest(doc["system"])[:10]
+    res = _execute_one(doc, name)
+    twin = doc.get("twin")
+    if twin is not None and res["violation"] is None:
+        r2 = _execute_one(twin, name)
+        res["events"].append(["twin"])
+        res["events"].extend(r2["events"])
+        for key in ("faults", "probes"):
+            for k, v in r2[key].items():
+                res[key][k] = res[key].get(k, 0) + v
+        res["states"].extend(r2["states"])
+        res["ops"] += r2["ops"]
+        res["sim_time"] += r2["sim_time"]
+        res["nontrivial"] = res["nontrivial"] or r2["nontrivial"]
+        core.bump(res["faults"], "same_name_other_system")
+        if r2["violation"] is not None:
+            res["violation"] = r2["violation"]
+            res["violation"]["in_twin"] = True
+    return res
+
+
+def _execute_one(doc: dict, sysname: str) -> dict:
     import warnings
 
     import numpy as np
@@ -448,7 +482,7 @@ def _execute(doc: dict) -> dict:
     res = core.new_result()
     cls = FigureOfMeritLE if doc["cls"] == "le" else FigureOfMerit
     supports = bool(doc["supports_model"])
-    inst, real_eq = _build(doc["system"])
+    inst, real_eq = _build(doc["system"], sysname)
     sd = int(inst.system.state_dims)
     cd = int(inst.system.control_dims)
     obj = cls(inst, supports)
@@ -538,7 +572,7 @@ def _execute(doc: dict) -> dict:
             if op.get("how") == "destabilising":
                 core.bump(res["faults"], "x:destabilising")
             # ---- reference: fresh objective on a freshly built instance
-            finst, freal = _build(doc["system"])
+            finst, freal = _build(doc["system"], sysname)
             fresh = cls(finst, supports)
             if mode == "model":
                 fresh.set_model(model_of(model_id, freal))
@@ -888,6 +922,10 @@ def _execute(doc: dict) -> dict:
 # ------------------------------------------------------------------ shrinking
 
 def reductions(doc: dict):
+    if doc.get("twin") is not None:
+        yield {k: v for k, v in doc.items() if k != "twin"}
+        for cand in reductions(doc["twin"]):
+            yield {**doc, "twin": cand}
     for cand in core.list_deletions(doc["ops"], 1):
         yield {**doc, "ops": cand}
     sysd = doc["system"]
